@@ -32,6 +32,14 @@ thread still parked when nothing is left to run is reported as 'repetition stall
 HANG_S real seconds as 'hung' - outcomes of the code under test, judged by the oracle with the scenario as replay (seeded
 change C17-m9: bare acquire()/release() around the hand-over, the lock stays held after ONE failed repetition);
 regenerated fact `bareLockCalls`, theorems `lock_discipline_tied` / `failed_handover_blocks_nobody`.
+
+Round 6: a hand-over that TAKES TIME - per-event key `slow` {"n": ms}: the nth hand-over of the event blocks the calling
+thread for ms of virtual time inside `btp_router.btp_data_request` (`Sched.block`: the thread is parked, the other threads
+and the clock go on; afterwards `time.monotonic()` / `time.time()` of the module show the elapsed time).  `time.sleep` of
+the module refuses a negative length like the real one (ValueError) and a repetition thread that dies with an exception
+is a VIOLATION with the scenario as replay.  Oracle: still ceil(T/i) DENMs, DENM k not before k*i and at most as late as
+the earlier hand-overs took (seeded change C17-m11: `sleep(i/1000 - elapsed)` without a clamp, outside the try).
+Regenerated fact `sleepArgs`, theorems `repetition_sleep_tied` / `count_independent_of_handover_duration`.
 """
 from __future__ import annotations
 
@@ -102,6 +110,9 @@ ASSUMPTIONS = [
     "are entered and left without pre-emption",
     "self.vehicle_data of the transmission management is not rebound while an event repeats (nothing in the "
     "repository does; the code re-reads it at every repetition, the model reads the station id once per event)",
+    "slow hand-overs (round 6): only btp_router.btp_data_request takes (virtual) time, for whole milliseconds and "
+    "without raising; building and encoding a DENM take no virtual time; slow hand-overs are not combined with "
+    "injected failures or a caller overwriting its dictionary in the same event",
     "failure injection: a repetition 'fails' by btp_router.btp_data_request or denm_coder.encode raising an ordinary "
     "Exception; the one-shot send_collision_risk_warning_denm reports such a failure to its caller (not injected)",
     "known finding C17-KF1 (= C12-KF1, pinned by tests/.../test_ldm_maintenance.py): a received DENM whose event "
@@ -243,6 +254,7 @@ class Sched:
         self.tasks = []
         self.max_sleeps = max_sleeps
         self.main_sleeps = 0
+        self.drift = {}        # round 6: per event tag, virtual ms its thread has spent blocked in slow hand-overs
 
     def spawn(self, target, args, defer=False):
         th = _Task(self, self.next_tag, target, args)
@@ -285,6 +297,25 @@ class Sched:
         th.sleeps += 1
         if self.max_sleeps is not None and th.sleeps > self.max_sleeps:
             raise _Stop()
+        heapq.heappush(self.heap, (self.clock.ms + ms, self.order, th))
+        self.order += 1
+        self.ctrl.release()
+        th.sem.acquire()
+        if th.killed or th.abandoned:
+            raise _Kill()
+
+    def block(self, ms):
+        """round 6: the running thread is BLOCKED for `ms` of virtual time inside a collaborator (a hand-over to the
+        transport layer that takes time): it is parked, the other threads and the clock go on, and when it is resumed
+        `time.monotonic()` / `time.time()` of the module show that the time has passed.  Not a `time.sleep` of the code
+        under test: not counted in `sleeps`."""
+        th = self.by_ident.get(threading.get_ident())
+        if th is None:
+            self.clock.ms += ms
+            return
+        if th.abandoned:
+            raise _Kill()
+        self.drift[th.tag] = self.drift.get(th.tag, 0) + ms
         heapq.heappush(self.heap, (self.clock.ms + ms, self.order, th))
         self.order += 1
         self.ctrl.release()
@@ -335,7 +366,7 @@ def fault_of(evs, sched):
     e = evs[tag]
     if not e.get("faults") or e["i"] <= 0:
         return None
-    k = (sched.clock.ms - T0 - e["start"]) // e["i"]
+    k = (sched.clock.ms - T0 - e["start"] - sched.drift.get(tag, 0)) // e["i"]
     return e["faults"].get(str(k))
 
 
@@ -344,12 +375,22 @@ class CaptureBTP:
 
     def __init__(self, sched, evs=None):
         self.sched, self.log, self.cb, self.evs = sched, [], {}, evs
+        self.nth = {}
 
     def btp_data_request(self, request):
         failed = fault_of(self.evs, self.sched) == "t"
-        self.log.append((self.sched.clock.ms, self.sched.cur, request, failed))
+        tag = self.sched.cur
+        nth = self.nth.get(tag, 0)        # this is the nth hand-over of the event (0-based)
+        self.nth[tag] = nth + 1
+        self.log.append((self.sched.clock.ms, tag, request, failed))
         if failed:
             raise InjectedTransportError("injected: transport layer refuses the DENM")
+        if self.evs is not None and tag is not None and 0 <= tag < len(self.evs):
+            ms = (self.evs[tag].get("slow") or {}).get(str(nth))
+            if ms:
+                # round 6: the hand-over TAKES TIME (congested link layer): the calling thread is blocked for `ms` of
+                # virtual time, then btp_data_request returns normally
+                self.sched.block(int(ms))
 
     def register_indication_callback_btp(self, port, callback):
         self.cb[port] = callback
@@ -537,10 +578,17 @@ def oracle_event(e, log, station):
     if len(log) != len(want_ks):
         bad.append(f"count {len(log)} != ceil(T/i) {want_n}" + (f" minus {want_n - len(want_ks)} unencodable" if len(want_ks) != want_n else "")
                    + (f" (repetitions failing below the service: {faults})" if faults else ""))
-    for k, r in zip(want_ks, log):
-        if r["t"] != start + k * i:
-            bad.append(f"message {k} at offset {r['t'] - start} ms, schedule says {k * i}")
+    # round 6: hand-overs that TAKE TIME (`slow` {"n": ms}: the nth hand-over of the event blocks for ms).  The count is
+    # unchanged; message k is never early and at most as late as the time the earlier hand-overs took (an implementation
+    # may or may not make up for it)
+    slow = e.get("slow") or {}
+    late = 0
+    for n, (k, r) in enumerate(zip(want_ks, log)):
+        if not (start + k * i <= r["t"] <= start + k * i + late):
+            bad.append(f"message {k} at offset {r['t'] - start} ms, schedule says {k * i}"
+                       + (f" (+ at most {late} ms spent in slow hand-overs)" if late else ""))
             break
+        late += int(slow.get(str(n), 0))
     if log:
         if any(r["aid"] != log[0]["aid"] for r in log):
             bad.append("action id changes within the event")
@@ -674,7 +722,13 @@ def compare_model(ctx, sc, obs, endings, out, order):
         ok = real_end == want_end and len(msgs) == len(log)
         tol = 1 if e["kind"] == "eva" else 0
         if ok:
-            for m, r in zip(msgs, log):
+            # round 6: the model's loop counts nominal intervals (`loop`); with hand-overs that take time the real
+            # emission times are those of `loopDrift` (Props.C17 drift_same_count_never_early): offset and reference
+            # time of message n are shifted by the time the earlier hand-overs of the event took
+            slow, late = e.get("slow") or {}, 0
+            for n, (m0, r) in enumerate(zip(msgs, log)):
+                m = dict(m0, off=m0["off"] + late, ref=m0["ref"] + late)
+                late += int(slow.get(str(n), 0))
                 if (m["off"] != r["t"] - e["start"] or m["aid"] != r["aid"] or m["station"] != r["station"]
                         or m["port"] != r["port"] or (m["shape"] == "circle") != r["hst_is_circle"]
                         or m["area"][2:] != r["area"][2:]
@@ -722,21 +776,28 @@ def check_scenarios(ctx, scs):
                               f"faults {e.get('faults') or {}}) handed over {len(obs[j])} DENM(s), then {real_end}", strip(sc))
                 ctx.cover("watchdog_repetition_stalled")
             elif real_end != "fin":
-                ctx.violation(f"event {j} ({e['kind']}, i={e['i']}, T={e['T']}) ended with {real_end}", strip(sc))
+                ctx.violation(f"event {j} ({e['kind']}, i={e['i']} ms, T={e['T']} ms{slow_txt(e)}): the repetition thread died with "
+                              f"{real_end} after {len(obs[j])} DENM(s)", strip(sc))
             bad, skips = oracle_event(e, obs[j], sc["station"])
             if skips:
                 ctx.cover("tolerance_skips_pos_1unit", skips)
             if bad:
-                ctx.violation(f"event {j} ({e['kind']}, i={e['i']} ms, T={e['T']} ms, start {e['start']}): " + "; ".join(bad[:3]),
+                ctx.violation(f"event {j} ({e['kind']}, i={e['i']} ms, T={e['T']} ms, start {e['start']}{slow_txt(e)}): " + "; ".join(bad[:3]),
                               strip(sc), classify(sc, bad))
             ctx.cover(f"kind_{e['kind']}")
             for v in (e.get("faults") or {}).values():
                 ctx.cover("fault_injected_transport" if v == "t" else "fault_injected_encode")
+            for n, ms in (e.get("slow") or {}).items():
+                ctx.cover("slow_handover_shorter_than_interval" if ms < e["i"] else
+                          ("slow_handover_equal_to_interval" if ms == e["i"] else "slow_handover_longer_than_interval"))
+            if len(e.get("slow") or {}) > 1:
+                ctx.cover("slow_handover_several_in_one_event")
             if e.get("mutate"):
                 ctx.cover("caller_mutates_position_dict_before_thread_runs" if e["mutate"].get("window") == "start"
                           else "caller_mutates_position_dict")
             ctx.cover("T_zero" if e["T"] == 0 else ("T_multiple_of_i" if e["T"] % e["i"] == 0 else "T_not_multiple_of_i"))
-            ctx.nontrivial(("ev", e["kind"], e["i"], e["T"], len(obs[j]), tuple(sorted((e.get("faults") or {}).items())), bool(e.get("mutate"))))
+            ctx.nontrivial(("ev", e["kind"], e["i"], e["T"], len(obs[j]), tuple(sorted((e.get("faults") or {}).items())), bool(e.get("mutate")),
+                            tuple(sorted((e.get("slow") or {}).items()))))
         bad = oracle_scenario(sc, obs)
         if bad:
             ctx.violation("; ".join(bad[:3]), strip(sc), classify(sc, bad))
@@ -759,6 +820,10 @@ def check_scenarios(ctx, scs):
         sc, (obs, _) = scs[0], results[0]
         ctx.sample("scenario", {"scenario": strip(sc), "emissions": [[(r["t"], r["aid"], r["ref"]) for r in o[:3]] for o in obs]})
     return results
+
+
+def slow_txt(e):
+    return f", hand-overs taking time {e['slow']} (nth: ms)" if e.get("slow") else ""
 
 
 def overlapping(sc):
@@ -806,7 +871,35 @@ def gen_event(rng, horizon, kinds):
         ev["mutate"].update(lat=-lat // 2 + 12345, lon=-lon // 2 - 54321)
         if abs(ev["mutate"]["lat"] - lat) < 10 and abs(ev["mutate"]["lon"] - lon) < 10:
             ev["mutate"]["lat"] = lat - 100000 if lat > 0 else lat + 100000
+    if kind != "crw" and n >= 1 and not ev.get("faults") and not ev.get("mutate") and rng.random() < 0.12:
+        ev["slow"] = gen_slow(rng, i, n)
     return ev
+
+
+def gen_slow(rng, i, n):
+    """round 6: which hand-overs of an event take time, and how long (ms of virtual time): shorter than / exactly /
+    slightly more than / several times the interval, at the first / last / any repetition, one to three of them"""
+    ns = {rng.choice([0, 1, n - 1, n // 2, rng.randrange(n)]) for _ in range(rng.choice([1, 1, 2, 3]))}
+    return {str(k): rng.choice([i, i + 1, i - 1, i // 2, 1, 2 * i + 50, 250, 1500, rng.randrange(1, 3 * i + 1)])
+            for k in sorted(ns) if 0 <= k < n}
+
+
+def gen_slow_scenario(rng):
+    """one to three events of one station, at least one of them with hand-overs that take time"""
+    sc = gen_scenario(rng)
+    sc["events"] = sc["events"][:rng.choice([1, 1, 2, 3])]
+    for e in sc["events"]:
+        e.pop("slow", None)
+    cands = [e for e in sc["events"] if e["kind"] != "crw" and e["T"] > 0]
+    if not cands:
+        e = sc["events"][0]
+        e.update(kind="direct", i=rng.choice([100, 250, 1000]), T=rng.choice([450, 1000, 3000]))
+        cands = [e]
+    for e in cands[:rng.choice([1, 1, 2])]:
+        e.pop("faults", None)
+        e.pop("mutate", None)
+        e["slow"] = gen_slow(rng, e["i"], ceil_div(e["T"], e["i"]))
+    return sc
 
 
 def gen_scenario(rng):
@@ -868,6 +961,28 @@ FIXED_SCENARIOS = [
         {"kind": "direct", "i": 200, "T": 600, "lat": 415100000, "lon": 21100000, "start": 250},
         {"kind": "eva", "i": 500, "T": 1000, "lat": 414000000, "lon": 20000000, "start": 300, "faults": {"0": "e"}},
         {"kind": "crw", "i": 100, "T": 0, "lat": -337000000, "lon": -703000000, "start": 1600}]},
+]
+
+# round 6 (seeded change C17-m11): a hand-over to the transport layer TAKES TIME - longer than / exactly / shorter than
+# the repetition interval, once or several times: the event is still announced ceil(T/i) times (later, never earlier)
+SLOW_SCENARIOS = [
+    {"station": 4242, "seq0": 0, "events": [
+        {"kind": "direct", "i": 100, "T": 1000, "lat": 414536061, "lon": -20737073, "start": 0, "slow": {"3": 250}}]},
+    {"station": 16, "seq0": 0, "events": [
+        {"kind": "direct", "i": 1000, "T": 4500, "lat": 415000000, "lon": 21000000, "start": 0, "slow": {"1": 1500}}]},
+    # exactly the interval / one ms more / one ms less, first and last repetition
+    {"station": 17, "seq0": 65535, "events": [
+        {"kind": "eva", "i": 500, "T": 2000, "lat": -337000000, "lon": -703000000, "start": 0, "slow": {"0": 500}},
+        {"kind": "direct", "i": 250, "T": 1001, "lat": 5, "lon": -5, "start": 5000, "slow": {"2": 251, "4": 249}}]},
+    # several slow hand-overs in one event while a second event and a one-shot warning overlap (their cadence is untouched)
+    {"station": 18, "seq0": 3, "events": [
+        {"kind": "direct", "i": 100, "T": 650, "lat": 415000000, "lon": 21000000, "start": 0, "slow": {"0": 101, "1": 99, "5": 1000}},
+        {"kind": "direct", "i": 200, "T": 1000, "lat": 415100000, "lon": 21100000, "start": 50},
+        {"kind": "crw", "i": 100, "T": 0, "lat": -337000000, "lon": -703000000, "start": 400}]},
+    # a single repetition (T <= i) whose hand-over outlasts the interval; long interval
+    {"station": 19, "seq0": 0, "events": [
+        {"kind": "direct", "i": 100, "T": 100, "lat": 1, "lon": 2, "start": 0, "slow": {"0": 5000}},
+        {"kind": "eva", "i": 10000, "T": 30000, "lat": 414000000, "lon": 20000000, "start": 10, "slow": {"1": 10001}}]},
 ]
 
 
@@ -1565,6 +1680,8 @@ def run(ctx):
         check_degenerate(ctx)
         fixed = [copy.deepcopy(s) for s in FIXED_SCENARIOS]
         gen = [gen_scenario(ctx.rng) for _ in range(ctx.scale(450, 9000))]
+        fixed += [copy.deepcopy(s) for s in SLOW_SCENARIOS]
+        gen = [gen_slow_scenario(ctx.rng) for _ in range(ctx.scale(40, 800))] + gen
         res = check_scenarios(ctx, fixed + gen)
         check_loopback(ctx, res, fixed + gen)
         check_rx(ctx, rx_cases(ctx.rng, ctx.scale(2500, 60000)))
@@ -1583,7 +1700,9 @@ def search(ctx):
     ctx.model_ok = False
     try:
         with rs.quiet():
-            check_scenarios(ctx, [gen_scenario(ctx.rng) for _ in range(ctx.scale(2700, 27000))])
+            check_scenarios(ctx, [copy.deepcopy(s) for s in SLOW_SCENARIOS]
+                            + [gen_slow_scenario(ctx.rng) for _ in range(ctx.scale(150, 3000))]
+                            + [gen_scenario(ctx.rng) for _ in range(ctx.scale(2700, 27000))])
             check_rx(ctx, rx_cases(ctx.rng, ctx.scale(9000, 300000)))
             check_alloc(ctx, search=True)
     finally:
@@ -1603,7 +1722,7 @@ def replay(ctx, obj):
             if is_stall(endings.get(j)):
                 bad.append(f"repetition stalled: event {j} handed over {len(obs[j])} DENM(s), then {endings.get(j)}")
             elif endings.get(j, "fin") != "fin":
-                bad.append(f"event {j} ended with {endings.get(j)}")
+                bad.append(f"event {j}: the repetition thread died with {endings.get(j)} after {len(obs[j])} DENM(s)")
             b, _ = oracle_event(e, obs[j], case["station"])
             bad += [f"event {j}: {x}" for x in b]
         bad += oracle_scenario(case, obs)
